@@ -5,7 +5,7 @@ independent cell-by-cell Cantera evaluation), kept names bit-identical to the in
 header min/max rows = extrema of the written data; output must validate."""
 import os, shutil, random
 import numpy as np
-from .. import common, gen, refparse, refmodel, workload, pools
+from .. import common, gen, refparse, refmodel, workload, pools, endurance
 
 ID = "C11"
 LEVEL = "exploration"
@@ -21,7 +21,7 @@ ASSUMPTIONS = ["Cantera is trusted; built-ins compared at rtol 1e-9 against a fl
                "cells whose temp and mass fractions are all zero have no defined state: new "
                "fields are not judged there (kept fields and min/max rows are)",
                "pathos pool replaced by the M1 shim here; real pathos pools are driven by C12"]
-REQUIRED_OBS = {"cooked": 60, "recipe:user2": 10, "recipe:user2multi": 10, "recipe:user3": 2, "recipe:user3multi": 2, "species_all": 1,
+REQUIRED_OBS = {"endurance_calls": 100, "cooked": 60, "recipe:user2": 10, "recipe:user2multi": 10, "recipe:user3": 2, "recipe:user3multi": 2, "species_all": 1,
                 "recipe:HRR": 2, "recipe:ENT": 2, "recipe:SRi": 2, "recipe:SDi": 2, "recipe:RRi": 2,
                 "kept_nonempty": 20, "parallel": 20, "callable": 5, "cli_runs": 10}
 TIMEOUT = {"quick": 600, "thorough": 2400}
@@ -81,7 +81,8 @@ def cases(tier, seed):
         cs.append({"kind": "thermo", "gen": g, "sel_seed": seed * 41 + i, **({"store": "files"} if i % 4 == 1 else {})})
     if tier == "thorough":      # an OUTPUT binary file larger than 2 GiB (a many-component recipe): 2 GB written, ~30 s
         cs.append({"kind": "huge_output", "sel_seed": seed * 43})
-    return cs
+    # M10: the same operation repeated in one process under a low open-file limit (vlib/endurance.py)
+    return cs + [endurance.case("cook", tier, seed)]
 
 
 def recipe_path(work, kind):
@@ -309,6 +310,8 @@ def run_huge_output(case, work, rec):
 
 
 def run_case(case, work, rec):
+    if case.get("kind") == "endurance":
+        return endurance.run_case(case, work, rec)
     if case.get("kind") == "huge_output":
         return run_huge_output(case, work, rec)
     from amr_kitchen.chef import Chef
